@@ -72,6 +72,15 @@ pub fn rec_rook_rays(s: Square) -> BitBoard {
     }
     BitBoard(0)
 }
+/// false in a native replay (stubs are not applied there), true under the verifier (stubbed by `under_stubs_yes`):
+/// lets a harness whose contract is phrased relative to a stand-in fall back to the stand-in-free statement when the
+/// counterexample is replayed on the real code
+pub fn under_stubs() -> bool {
+    false
+}
+pub fn under_stubs_yes() -> bool {
+    true
+}
 /// havoc abstraction of get_rook_rays / get_bishop_rays: ANY set of at most 14 squares (the real rays of a
 /// square never have more than 14 members — proved against the real tables by O16.3s)
 pub fn havoc_rays(_s: Square) -> BitBoard {
